@@ -167,7 +167,16 @@ func (s *scen) genRequest(out string) sim.RequestSpec {
 			final = s.cl.Head
 		}
 	}
-	return sim.RequestSpec{Modules: s.pkg.Modules, Output: out, Prod: r.Intn(3) != 0, Start: int64(start), Stop: stop, Final: final, Workers: 1 + r.Intn(5), OrderSeed: 1 + r.Int63n(1<<40)}
+	spec := sim.RequestSpec{Modules: s.pkg.Modules, Output: out, Prod: r.Intn(3) != 0, Start: int64(start), Stop: stop, Final: final, Workers: 1 + r.Intn(5), OrderSeed: 1 + r.Int63n(1<<40)}
+	// less common but legitimate configurations: final_blocks_only (needs every requested block final) and walker preloading
+	switch r.Intn(8) {
+	case 0:
+		spec.FinalBlocksOnly = true
+		spec.Final = s.cl.Head
+	case 1, 2:
+		spec.Preload = true
+	}
+	return spec
 }
 
 // deleteRandomFiles removes a random subset of cache files; returns what was removed.
@@ -253,6 +262,12 @@ func runStrategyScenario(c *fw.Case, prop string) {
 		history = append(history, step)
 		extra := map[string]any{"history": history}
 		c.Count("requests", 1)
+		if spec.FinalBlocksOnly {
+			c.Count("requests_final_blocks_only", 1)
+		}
+		if spec.Preload {
+			c.Count("requests_with_walker_preload", 1)
+		}
 		c.Count("tier2_jobs", int64(len(res.Jobs)))
 		if res.Err != nil {
 			c.Violation(prop+"/request-failed/"+fw.NormalizeMsg(res.Err.Error()), "a valid request failed: "+res.Err.Error(), s.witness(extra))
